@@ -122,3 +122,10 @@ Theorem C05T_rsp2byte_tup : forall (e : env) (req_sid rsp_sid : nat) (tup_versio
   decode e req_sid (encode e req_sid (req_of_rsp e req_sid rsp_sid rsp)).
 Proof. exact rsp2byte_tup. Qed.
 Print Assumptions C05T_rsp2byte_tup.
+
+(* ---- C06 on ARBITRARY bytes: every key and buffer the decoder adds to the set is a contiguous piece of the
+   input, the buffer after its key - no zero padding, no partial strings, nothing made up ---- *)
+Theorem C05T_tup_nothing_made_up : forall (bs : list N) (kv : list N * list N),
+  In kv (t_ins (tup_decode bs)) -> exists a b c, bs = a ++ fst kv ++ b ++ snd kv ++ c.
+Proof. exact tup_nothing_made_up. Qed.
+Print Assumptions C05T_tup_nothing_made_up.
